@@ -43,8 +43,14 @@ def run(ctx):
                                    simulate=nsim, depth=600)
     out2, res2 = sumdbmc.run_configs(ctx, sumdbmc.c14_race_configs(ctx.tier), workers_each=1, parallel=4, timeout=3000, label="C14race",
                                      simulate=nsim * (4 if q else 10), depth=600)
+    # schedules of particular shapes, found exhaustively
+    out3, res3 = sumdbmc.run_configs(ctx, sumdbmc.c14_scenario_configs(ctx.tier), workers_each=8, parallel=2, timeout=3000, label="C14scenario")
+    nscen = sum(1 for l in open(out3) if l.startswith('"'))
+    if nscen == 0:
+        raise Infra("the scenario search produced no schedule")
     with open(out, "a") as fo:
         fo.writelines(l for l in open(out2) if l.startswith('"'))
+        fo.writelines(l for l in open(out3) if l.startswith('"'))
     import concurrent.futures as cf
     parts = split_file(out, 12)
     with cf.ThreadPoolExecutor(max_workers=len(parts)) as ex:
